@@ -8,7 +8,8 @@ package harness
 // the driver reports as inconclusive. The watchdog runs on a goroutine outside
 // every bubble, in real time: when no case has started for a while it takes
 // two stack dumps; goroutines of the library that wait for a mutex in both
-// are a proven wedge. If a harness gate holds a goroutine at that moment the
+// are a proven wedge (as are goroutines found busy inside library code in both:
+// a loop that never ends). If a harness gate holds a goroutine at that moment the
 // wedge may be the harness's own doing and is reported as such.
 
 import (
@@ -38,6 +39,11 @@ func noteProgress(what string) {
 
 var wedgeBlockedRe = regexp.MustCompile(`(?m)^goroutine (\d+) \[(sync\.Mutex\.Lock|sync\.RWMutex\.Lock|sync\.RWMutex\.RLock)[^\]]*\]:`)
 
+// wedgeSpinRe: a goroutine that is running or ready to run. When its innermost frame lies in the library (not
+// in the runtime, which is where a harness loop that merely yields shows up) in two dumps while no case makes
+// progress, the library is spinning: a loop that never ends (a live-lock) hangs a caller just as a deadlock does.
+var wedgeSpinRe = regexp.MustCompile(`(?m)^goroutine (\d+) \[(running|runnable)[^\]]*\]:\n(\S+)`)
+
 func libraryMutexWaiters() map[string]string {
 	buf := make([]byte, 8<<20)
 	buf = buf[:runtime.Stack(buf, true)]
@@ -45,6 +51,9 @@ func libraryMutexWaiters() map[string]string {
 	for _, g := range strings.Split(string(buf), "\n\n") {
 		if m := wedgeBlockedRe.FindStringSubmatch(g); m != nil && strings.Contains(g, "engine.io/v2/") {
 			out[m[1]] = g
+		}
+		if m := wedgeSpinRe.FindStringSubmatch(g); m != nil && strings.HasPrefix(m[3], "github.com/zishang520/engine.io/v2/") {
+			out["spin"+m[1]] = g
 		}
 	}
 	return out
@@ -93,7 +102,7 @@ func init() {
 				fmt.Printf("HARNESS-BROKEN wedge while a harness gate holds a goroutine (inconclusive): case %s\n%s\n", clipStr(what, 1500), strings.Join(stuck, "\n\n"))
 				os.Exit(4)
 			}
-			fmt.Printf("VERIF-WEDGE no case has started for %v; goroutine(s) of the library wait for a mutex in two stack dumps 1.5s apart: the case never becomes quiescent.\ncase: %s\n%s\n", wedgeAfter, clipStr(what, 3000), strings.Join(stuck, "\n\n"))
+			fmt.Printf("VERIF-WEDGE no case has started for %v; goroutine(s) of the library wait for a mutex, or are busy inside the library, in two stack dumps 1.5s apart: the case never becomes quiescent.\ncase: %s\n%s\n", wedgeAfter, clipStr(what, 3000), strings.Join(stuck, "\n\n"))
 			os.Exit(3)
 		}
 	}()
